@@ -12,12 +12,13 @@ RULE = ("seeded blackbox-free lint-clean circuits (<= 5 inputs, <= 10 gates) x a
         "choices of the arbitrary binary values under X; distinct = canonical net; non-trivial = some gate is X for "
         "one pattern and masked (binary although an operand is X) for another")
 PROBES = ["masked:and", "masked:nand", "masked:or", "masked:nor", "x_through_parity", "multi1", "const", "name_clash_X"]
-ASSUMPTIONS = ["<= 5 inputs, <= 10 gates, constants 0/1 only"]
+ASSUMPTIONS = ["<= 5 inputs (all 3^n patterns), <= 14 gates, gates up to 9 operands, constants 0/1 only"]
 
 
 def gen(rng, tier):
     style = rng.choice(("plain", "plain", "underscore"))
-    net = G.gen_net(rng, n_inputs=(1, 5), n_gates=(1, 10), types=G.swarm_types(rng), max_arity=rng.randint(2, 5),
+    net = G.gen_net(rng, n_inputs=(1, 5), n_gates=(1, 14) if rng.random() < 0.2 else (1, 10), types=G.swarm_types(rng),
+                    max_arity=rng.randint(6, 9) if rng.random() < 0.15 else rng.randint(2, 5),
                     constants=0.35, name_style=style, input_outputs=0.1, parity_bias=rng.choice((0.0, 0.3)))
     if rng.random() < 0.3:
         # names that look like (or are stems / case variants of) the helper names ternary() creates, so that a
